@@ -23,7 +23,7 @@ import subprocess
 import sys
 from fractions import Fraction
 
-from . import common, docgen, laygen
+from . import common, docgen, laygen, optdraw
 
 ATTR_TEXT = ["text_font", "text_format", "text_font_size", "text_color", "text_background_color",
              "text_justification", "text_indent_first", "text_indent_left", "text_indent_right", "text_space",
@@ -32,6 +32,30 @@ ATTR_TABLE = ATTR_TEXT + ["border_left", "border_right", "border_top", "border_b
                           "border_color_left", "border_color_right", "border_color_top", "border_color_bottom",
                           "border_color_first", "border_color_last", "border_width", "cell_height",
                           "cell_justification", "cell_vertical_justification", "cell_nrow"]
+
+
+# what `serialize` (and `encodecorr2`'s serialisers) transmit to the encoder model, per component class of
+# `optdraw.CLASSES`.  Every OTHER constructor option (today: RTFPage.use_color, RTFBody.last_row, the text components'
+# text_indent_reference, RTFFigure.fig_pos) is invisible to the model; `_worker` draws those over their documented value
+# sets too (`optdraw.draw_unread`, a random stream of its own), so that wiring one of them — or any option added to a
+# class later — shows as a byte difference instead of going unseen.
+_PAGE_READ = {"width", "height", "margin", "nrow", "orientation", "border_first", "border_last", "col_width",
+              "page_title", "page_footnote", "page_source"}
+SERIALIZED = dict(
+    page=_PAGE_READ,
+    **{c: set(ATTR_TEXT) | {"text"} for c in ("title", "subline", "page_header", "page_footer")},
+    header=set(ATTR_TABLE) | {"text", "col_rel_width"},
+    **{c: set(ATTR_TABLE) | {"text", "as_table", "col_rel_width"} for c in ("footnote", "source")},
+    body=set(ATTR_TABLE) | {"col_rel_width", "as_colheader", "group_by", "page_by", "subline_by", "new_page",
+                            "pageby_header", "pageby_row"},
+    figure={"figures", "fig_width", "fig_height", "fig_align"})
+
+
+def draw_unserialized(seed, spec, info, *tags):
+    """options outside the encoder model's input (see SERIALIZED), from a stream that leaves the generators' alone"""
+    labels = optdraw.draw_unread(common.sub_rng(seed, "encodecorr", "options", *tags), spec, SERIALIZED)
+    if labels:
+        info["unserialized_options"] = labels
 
 
 # border colours drawn for column headers / footnote / source: some are used by no other generator of this file
@@ -776,6 +800,8 @@ def _worker(args):
         else:
             spec, info = gen_doc(common.sub_rng(seed, "encodecorr", stage, k), stage, k)
             label_headers(spec, info)
+        if fixed is None:
+            draw_unserialized(seed, spec, info, stage, k, *map(str, rest))
         out = dict(spec=spec, info=info, stage=stage)
         try:
             with contextlib.redirect_stdout(io.StringIO()):
